@@ -1,6 +1,28 @@
 import SpVerif.Model.Select
+import SpVerif.Lemmas.Arrow
+/-!
+# C16 — derived arrays hold the same elements and behave like fresh ones
+
+Two layers are modelled.
+
+* **Requests** (`Model/Select.lean`): which source positions `take` / `arr[i]` select and which error they raise.
+* **Buffers** (`Model/Arrow.lean`): a geometry array is a window (`off`, `len`) on shared Arrow buffers; a slice only moves the
+  window.  The theorems say that the elements of a slice are the slice of the elements, that what `_ListArrayBufferMixin`
+  hands to the numba kernels for element `i` of any window (`buffer_values` cut at `buffer_outer_offsets[i]`,
+  `[i+1]`) is exactly the values of element `i`, whatever the window and however the buffers are laid out, and that
+  `flat_values` / `buffer_inner_offsets` are the corresponding runs.  Hence every per-element quantity computed from those
+  inputs depends on the element only.  Hypotheses: the window lies inside the first offsets buffer (`hwf`) and offsets do not
+  decrease (`MonoOn`) — both guaranteed by the Arrow format; the correspondence check feeds the model the raw buffers of real
+  derived arrays and compares all five outputs.
+
+The deeper pandas / pyarrow machinery (`pa.concat_arrays`, `take`, pickling) is not modelled: for those steps the tie is the
+differential check only.
+-/
 namespace SpVerif
-open Select
+open Select Arrow
+
+/-! ### requests -/
+
 /-- a successful `take` returns one slot per requested index -/
 theorem C16_take_length (n : Nat) (fill : Bool) (idx : List Int) (ps : List (Option Nat))
     (h : takeSpec n fill idx = .ok ps) : ps.length = idx.length := by
@@ -14,4 +36,226 @@ theorem C16_take_length (n : Nat) (fill : Bool) (idx : List Int) (ps : List (Opt
         · cases h
         · cases h; simp
       · cases h; simp
+
+/-- a successful `take` selects, slot by slot: position `i` for `i ≥ 0`; with `allow_fill` a missing element for `-1`; without
+it position `n + i` for negative `i` — and every selected position exists -/
+theorem C16_take_slots (n : Nat) (fill : Bool) (idx : List Int) (ps : List (Option Nat))
+    (h : takeSpec n fill idx = .ok ps) :
+    ps = idx.map (fun i => if i < 0 then (if fill then none else some (i + (n : Int)).toNat) else some i.toNat) ∧
+    ∀ p ∈ ps, ∀ k, p = some k → k < n := by
+  unfold takeSpec at h
+  split at h
+  · cases h
+  · next hbad0 =>
+    split at h
+    · cases h
+    · next hbad =>
+      simp only [List.any_eq_true, Bool.or_eq_true, decide_eq_true_eq, Bool.and_eq_true, Bool.not_eq_true', not_exists, not_and,
+        not_or] at hbad
+      split at h
+      · next hf =>
+        split at h
+        · cases h
+        · next hneg =>
+          cases h
+          simp only [List.any_eq_true, decide_eq_true_eq, not_exists, not_and, Int.not_lt] at hneg
+          subst hf
+          refine ⟨by simp, ?_⟩
+          intro p hp k hk
+          simp only [List.mem_map] at hp
+          obtain ⟨i, hi, rfl⟩ := hp
+          have := (hbad i hi).1
+          split at hk
+          · cases hk
+          · cases hk; omega
+      · next hf =>
+        cases h
+        have hff : fill = false := by simpa using hf
+        subst hff
+        refine ⟨by simp, ?_⟩
+        intro p hp k hk
+        simp only [List.mem_map] at hp
+        obtain ⟨i, hi, rfl⟩ := hp
+        have h1 := (hbad i hi).1
+        have h2 := (hbad i hi).2 rfl
+        split at hk
+        · cases hk; omega
+        · cases hk; omega
+
+/-- `take` raises exactly in three cases: a non-empty take from an empty array (`IndexError`), an index outside
+`[-n, n)` — or below `-1`… with `allow_fill` outside `[.., n)` — (`IndexError`), a negative index other than `-1` with
+`allow_fill` (`ValueError`) -/
+theorem C16_take_errors (n : Nat) (fill : Bool) (idx : List Int) :
+    (takeSpec n fill idx = .error .indexError ↔
+      (n = 0 ∧ idx ≠ [] ∧ (fill = false ∨ ∃ i ∈ idx, i ≥ 0)) ∨ ∃ i ∈ idx, i ≥ (n : Int) ∨ (fill = false ∧ i < -(n : Int))) ∧
+    (takeSpec n fill idx = .error .valueError →
+      fill = true ∧ ∃ i ∈ idx, i < -1) := by
+  unfold takeSpec
+  constructor
+  · constructor
+    · intro h
+      split at h
+      · next h0 =>
+        left
+        obtain ⟨a, b, c⟩ := h0
+        refine ⟨a, b, ?_⟩
+        rcases c with c | c
+        · left; simpa using c
+        · right; simpa using c
+      · split at h
+        · next h1 =>
+          right
+          simp only [List.any_eq_true, Bool.or_eq_true, decide_eq_true_eq, Bool.and_eq_true, Bool.not_eq_true'] at h1
+          obtain ⟨i, hi, hc⟩ := h1
+          exact ⟨i, hi, hc⟩
+        · split at h
+          · split at h <;> cases h
+          · cases h
+    · intro h
+      rcases h with ⟨a, b, c⟩ | ⟨i, hi, hc⟩
+      · have : n = 0 ∧ idx ≠ [] ∧ ((!fill) = true ∨ (idx.any (· ≥ 0)) = true) := by
+          refine ⟨a, b, ?_⟩
+          rcases c with c | ⟨i, hi, hc⟩
+          · left; simp [c]
+          · right; simp only [List.any_eq_true, decide_eq_true_eq]; exact ⟨i, hi, hc⟩
+        rw [if_pos this]
+      · split
+        · rfl
+        · have : (idx.any (fun i => decide (i ≥ (n : Int)) || (!fill && decide (i < -(n : Int))))) = true := by
+            simp only [List.any_eq_true, Bool.or_eq_true, decide_eq_true_eq, Bool.and_eq_true, Bool.not_eq_true']
+            exact ⟨i, hi, hc⟩
+          simp only [this, if_true]
+  · intro h
+    split at h
+    · cases h
+    · split at h
+      · cases h
+      · split at h
+        · next hf =>
+          split at h
+          · next hneg =>
+            simp only [List.any_eq_true, decide_eq_true_eq] at hneg
+            exact ⟨hf, hneg⟩
+          · cases h
+        · cases h
+
+/-- `arr[i]` for an integer: position `i`, or `n + i` for a negative `i`; `IndexError` outside `[-n, n)` -/
+theorem C16_getitem (n : Nat) (i : Int) :
+    (getItemSpec n i = .error .indexError ↔ (i < -(n : Int) ∨ i ≥ (n : Int))) ∧
+    ∀ k, getItemSpec n i = .ok k → k < n ∧ ((k : Int) = i ∨ (k : Int) = i + n) := by
+  unfold getItemSpec
+  constructor
+  · constructor
+    · intro h; split at h
+      · assumption
+      · cases h
+    · intro h; simp only [h, if_true]
+  · intro k h
+    split at h
+    · cases h
+    · cases h
+      split <;> omega
+
+/-! ### buffers: a slice is a window on the same buffers -/
+
+/-- slicing a slice is slicing once: windows compose by adding their starts -/
+theorem C16_slice_of_slice (v : View) (a n b m : Nat) : (v.slice a n).slice b m = v.slice (a + b) m := by
+  simp [View.slice, Nat.add_assoc]
+
+/-- **the elements of a slice are the slice of the elements** (missing stays missing, order kept) — depth 1 (multipoint,
+line, ring), depth 2 (multiline, polygon), depth 3 (multipolygon) -/
+theorem C16_slice_elements (v : View) (s n : Nat) (h : s + n ≤ v.len) :
+    elems1 (v.slice s n) = sl (elems1 v) s (s + n) ∧ elems2 (v.slice s n) = sl (elems2 v) s (s + n) ∧
+    elems3 (v.slice s n) = sl (elems3 v) s (s + n) :=
+  ⟨elems1_slice v s n h, elems2_slice v s n h, elems3_slice v s n h⟩
+
+/-- **what a kernel reads for element `i` is element `i`** (depth 1): `buffer_values[outer[i] : outer[i+1]]` is the element stored
+at position `off + i` -/
+theorem C16_kernel_input1 (v : View) (o0 : List Nat) (ho : v.offs = [o0]) (hwf : v.off + v.len + 1 ≤ o0.length)
+    (i : Nat) (hi : i < v.len) :
+    sl v.vals (rd (outerOffsets v) i) (rd (outerOffsets v) (i + 1)) = elem1 v.vals (rd o0 (v.off + i)) (rd o0 (v.off + i + 1)) := by
+  rw [outerOffsets_rd v o0 [] ho hwf i (by omega), outerOffsets_rd v o0 [] ho hwf (i + 1) (by omega)]
+  rfl
+
+/-- depth 2: the values of all lines / rings of element `i`, in order -/
+theorem C16_kernel_input2 (v : View) (o0 o1 : List Nat) (ho : v.offs = [o0, o1]) (hwf : v.off + v.len + 1 ≤ o0.length)
+    (hm0 : MonoOn (rd o0) v.off (v.off + v.len)) (hm1 : MonoOn (rd o1) (rd o0 v.off) (rd o0 (v.off + v.len)))
+    (i : Nat) (hi : i < v.len) :
+    sl v.vals (rd (outerOffsets v) i) (rd (outerOffsets v) (i + 1)) =
+      (elem2 v.vals o1 (rd o0 (v.off + i)) (rd o0 (v.off + i + 1))).flatten := by
+  rw [outerOffsets_rd v o0 [o1] ho hwf i (by omega), outerOffsets_rd v o0 [o1] ho hwf (i + 1) (by omega)]
+  have h1 : rd o0 (v.off + i) ≤ rd o0 (v.off + i + 1) := hm0 (v.off + i) (by omega) (by omega)
+  rw [flat2 v.vals o1 _ _ h1 (hm1.sub (hm0.le _ _ (Nat.le_refl _) (by omega) (by omega)) (hm0.le _ _ (by omega) (by omega) (Nat.le_refl _)))]
+  rfl
+
+/-- depth 3: the values of all rings of all parts of element `i`, in order -/
+theorem C16_kernel_input3 (v : View) (o0 o1 o2 : List Nat) (ho : v.offs = [o0, o1, o2]) (hwf : v.off + v.len + 1 ≤ o0.length)
+    (hm0 : MonoOn (rd o0) v.off (v.off + v.len)) (hm1 : MonoOn (rd o1) (rd o0 v.off) (rd o0 (v.off + v.len)))
+    (hm2 : MonoOn (rd o2) (rd o1 (rd o0 v.off)) (rd o1 (rd o0 (v.off + v.len))))
+    (i : Nat) (hi : i < v.len) :
+    sl v.vals (rd (outerOffsets v) i) (rd (outerOffsets v) (i + 1)) =
+      ((elem3 v.vals o1 o2 (rd o0 (v.off + i)) (rd o0 (v.off + i + 1))).map List.flatten).flatten := by
+  rw [outerOffsets_rd v o0 [o1, o2] ho hwf i (by omega), outerOffsets_rd v o0 [o1, o2] ho hwf (i + 1) (by omega)]
+  have ha : rd o0 v.off ≤ rd o0 (v.off + i) := hm0.le _ _ (Nat.le_refl _) (by omega) (by omega)
+  have hb : rd o0 (v.off + i + 1) ≤ rd o0 (v.off + v.len) := hm0.le _ _ (by omega) (by omega) (Nat.le_refl _)
+  have h1 : rd o0 (v.off + i) ≤ rd o0 (v.off + i + 1) := hm0 (v.off + i) (by omega) (by omega)
+  have hm1' := hm1.sub ha hb
+  rw [flat3 v.vals o1 o2 _ _ h1 hm1'
+    (hm2.sub (hm1.le _ _ (Nat.le_refl _) ha (by omega)) (hm1.le _ _ (by omega) hb (Nat.le_refl _)))]
+  rfl
+
+/-- **results depend only on element values, never on buffer offsets**: if element `i` of one window and element `j` of
+another (other buffers, other offsets, other history) are equal, the kernels are handed equal inputs for them (depth 2;
+depth 1 and 3 alike from `C16_kernel_input1/3`) -/
+theorem C16_buffer_independent2 (v w : View) (o0 o1 p0 p1 : List Nat) (hv : v.offs = [o0, o1]) (hw : w.offs = [p0, p1])
+    (wfv : v.off + v.len + 1 ≤ o0.length) (wfw : w.off + w.len + 1 ≤ p0.length)
+    (mv0 : MonoOn (rd o0) v.off (v.off + v.len)) (mv1 : MonoOn (rd o1) (rd o0 v.off) (rd o0 (v.off + v.len)))
+    (mw0 : MonoOn (rd p0) w.off (w.off + w.len)) (mw1 : MonoOn (rd p1) (rd p0 w.off) (rd p0 (w.off + w.len)))
+    (i j : Nat) (hi : i < v.len) (hj : j < w.len)
+    (heq : elem2 v.vals o1 (rd o0 (v.off + i)) (rd o0 (v.off + i + 1)) = elem2 w.vals p1 (rd p0 (w.off + j)) (rd p0 (w.off + j + 1))) :
+    sl v.vals (rd (outerOffsets v) i) (rd (outerOffsets v) (i + 1)) = sl w.vals (rd (outerOffsets w) j) (rd (outerOffsets w) (j + 1)) := by
+  rw [C16_kernel_input2 v o0 o1 hv wfv mv0 mv1 i hi, C16_kernel_input2 w p0 p1 hw wfw mw0 mw1 j hj, heq]
+
+/-- **`flat_values`** of a window is the concatenation, in order, of what the kernels read for its elements -/
+theorem C16_flat_values (v : View) (o0 : List Nat) (rest : List (List Nat)) (ho : v.offs = o0 :: rest)
+    (hwf : v.off + v.len + 1 ≤ o0.length) (hm : MonoOn (fun i => thru rest (rd o0 (v.off + i))) 0 v.len) :
+    flatValues v = ((rng 0 v.len).map (fun i => sl v.vals (rd (outerOffsets v) i) (rd (outerOffsets v) (i + 1)))).flatten := by
+  rw [flatValues_eq v o0 rest ho hwf]
+  have := telescope v.vals (fun i => thru rest (rd o0 (v.off + i))) 0 v.len (Nat.zero_le _) hm
+  simp only [Nat.add_zero] at this
+  rw [← this]
+  congr 1
+  apply List.map_congr_left
+  intro i hi
+  obtain ⟨_, h2⟩ := mem_rng.mp hi
+  rw [outerOffsets_rd v o0 rest ho hwf i (by omega), outerOffsets_rd v o0 rest ho hwf (i + 1) (by omega)]
+
+/-- **`buffer_inner_offsets`**: the ring offsets of exactly the elements of the window (depth 2 and 3) -/
+theorem C16_inner_offsets (v : View) (o0 o1 o2 : List Nat) (hwf : v.off + v.len + 1 ≤ o0.length) :
+    (v.offs = [o0, o1] → innerOffsets v = sl o1 (rd o0 v.off) (rd o0 (v.off + v.len) + 1)) ∧
+    (v.offs = [o0, o1, o2] → innerOffsets v = sl o2 (rd o1 (rd o0 v.off)) (rd o1 (rd o0 (v.off + v.len)) + 1)) :=
+  ⟨fun h => innerOffsets2 v o0 o1 h hwf, fun h => innerOffsets3 v o0 o1 o2 h hwf⟩
+
+/-- fixed-width arrays (points): element `i` of a window starting at `off + s` is element `s + i` of the window at `off`, and
+`flat_values` is the run holding exactly the window's elements -/
+theorem C16_fixed (vals : List Int) (w off s i len : Nat) :
+    fixedElem vals w (off + s) i = fixedElem vals w off (s + i) ∧
+    fixedFlat vals w off len = ((rng 0 len).map (fun i => fixedElem vals w off i)).flatten := by
+  constructor
+  · simp [fixedElem, Nat.add_assoc]
+  · unfold fixedFlat fixedElem
+    have hm : MonoOn (fun i => w * (off + i)) 0 len := by
+      intro k _ _
+      exact Nat.mul_le_mul_left w (by omega)
+    have := telescope vals (fun i => w * (off + i)) 0 len (Nat.zero_le _) hm
+    simp only [Nat.add_zero] at this
+    rw [← this]
+    congr 1
+
+/-! non-vacuity: a polygon array of three elements (one missing) on buffers with a leading unused element, sliced -/
+example :
+    let v : View := { off := 1, len := 2, offs := [[0, 1, 3, 4], [0, 2, 4, 8, 10]], vals := [1,2,3,4,5,6,7,8,9,10], valid := [true, true, false] }
+    elems2 v = [some [[3, 4], [5, 6, 7, 8]], none] ∧ outerOffsets v = [2, 8, 10] ∧ flatValues v = [3,4,5,6,7,8,9,10] ∧
+    innerOffsets v = [2, 4, 8, 10] ∧ elems2 (v.slice 1 1) = [none] := by decide
+
 end SpVerif
